@@ -1,16 +1,17 @@
 #!/usr/bin/env bash
-# Generate harness/go.mod from $REPO/go.mod (same require set, replace to $REPO).
+# Generate the harness go.mod from $REPO/go.mod (same require set, replace to $REPO).
+# usage: gen_gomod.sh [outfile]   (default harness/go.mod; go.sum is written next to it)
 set -euo pipefail
 cd "$(dirname "$0")"
 . ./env.sh
-out=harness/go.mod
+out="${1:-harness/go.mod}"
+mkdir -p "$(dirname "$out")"
 tmp=$(mktemp)
 {
   echo "module verif/harness"
   echo
   echo "go 1.22.1"
   echo
-  # copy require blocks verbatim (drop the api pseudo-version line; re-added below)
   awk '/^require \(/{p=1} p{print} /^\)/{if(p){p=0;print ""}}' "$REPO/go.mod" \
     | grep -v 'github.com/circlefin/noble-cctp/api '
   echo "require ("
@@ -21,11 +22,10 @@ tmp=$(mktemp)
   echo
   echo "replace github.com/circlefin/noble-cctp => $REPO"
   echo "replace github.com/circlefin/noble-cctp/api => $REPO/api"
-  # carry over the repo's own replace directives (other than local ones)
   awk '/^replace \(/{p=1;next} /^\)/{p=0} p && /=>/ {sub(/^[ \t]+/,""); print "replace " $0} /^replace [^(]/{print}' "$REPO/go.mod" \
     | grep -v 'noble-cctp' || true
 } > "$tmp"
 if ! cmp -s "$tmp" "$out" 2>/dev/null; then mv "$tmp" "$out"; else rm -f "$tmp"; fi
-# go.sum: repo's plus lines for extra modules we resolved once (kept in go.sum.extra)
-cat "$REPO/go.sum" harness/go.sum.extra 2>/dev/null | sort -u > harness/go.sum.new
-if ! cmp -s harness/go.sum.new harness/go.sum 2>/dev/null; then mv harness/go.sum.new harness/go.sum; else rm -f harness/go.sum.new; fi
+sum="${out%.mod}.sum"
+cat "$REPO/go.sum" harness/go.sum.extra 2>/dev/null | sort -u > "$sum.new"
+if ! cmp -s "$sum.new" "$sum" 2>/dev/null; then mv "$sum.new" "$sum"; else rm -f "$sum.new"; fi
